@@ -369,12 +369,18 @@ def run(chk: Check) -> None:
     chk.rule = (
         "traces = seeded scenarios: 1-4 packets, the peer closes between packets / inside a frame / before any data / never, 2-8 recv_packet calls "
         "with timeouts drawn from {None, 0, 1, 2, 4}, peer writes of 1-5 bytes while the endpoint waits, read sizes 1-64; blocking endpoint on a "
-        "scripted transport + fake clock (both receivers), asynchronous endpoint on an in-memory transport (both receivers)"
+        "scripted transport + fake clock (both receivers), asynchronous endpoint on an in-memory transport (both receivers); plus, seen from the "
+        "public API (RecvClient): AsyncStreamEndpoint over the asyncio socket adapter, AsyncTCPNetworkClient over loopback TCP in virtual time and the "
+        "blocking TCPNetworkClient over a scripted socket/selector world, 2-9 recv_packet / iter_received_packets calls with timeouts None / 0 / positive "
+        "and pauses during which the peer writes or closes"
     )
     if not model(chk, quick):
         return
     rec = record_all(chk, 1200 if quick else 15000)
     validate(chk, rec, "endpoint_traces")
+    from . import c03_clients
+
+    c03_clients.run(chk)
     chk.evaluations = chk.traces
     chk.assumptions += [
         "the scripted transport honours the transport contract (returns available bytes without waiting, b'' only after the peer closed and all "
